@@ -59,6 +59,10 @@ class RecTransport:
         return None
 
     def disconnect(self):
+        # a line that was already read may still be handed over while the connection is being closed
+        hook, self.on_disconnect = getattr(self, "on_disconnect", None), None
+        if hook:
+            hook()
         return None
 
 
@@ -83,7 +87,7 @@ class FakeTimer:
 class Driver:
     """One gateway life (or several sharing a persistence file) under observation."""
 
-    def __init__(self, version, flavour, interner, persistence_file=None, raising_cb=False, mqtt=False):
+    def __init__(self, version, flavour, interner, persistence_file=None, raising_cb=False, mqtt=False, no_callback=False):
         import mysensors
         import mysensors.handler
         import mysensors.task
@@ -93,6 +97,7 @@ class Driver:
         self.I = interner
         self.pfile = persistence_file
         self.raising_cb = raising_cb
+        self.no_callback = no_callback      # gateway constructed without event_callback (cb observations are then empty)
         self.mqtt = mqtt
         self.cb_log = []
         self.events = []
@@ -138,7 +143,9 @@ class Driver:
     def _new_gateway(self):
         my = self.my
         self.tr = RecTransport()
-        kw = {"event_callback": self._callback, "protocol_version": self.version}
+        kw = {"protocol_version": self.version}
+        if not self.no_callback:
+            kw["event_callback"] = self._callback
         if self.pfile:
             kw.update(persistence=True, persistence_file=self.pfile)
         if self.mqtt:
@@ -466,9 +473,19 @@ class Driver:
             raised = type(exc).__name__
         return self._emit_event({"a": "Tick", "timers": len(timers)}, raised, with_disk=True)
 
-    def stop_restart(self):
+    def stop_restart(self, inflight=None):
+        """stop() and a new gateway object on the same file. inflight: a line that is delivered (and pumped) while
+        stop() is disconnecting the transport - it is handled before the stop completes, so it must be persisted."""
         raised = None
-        self.ops.append(["stop_restart"])
+        if inflight is not None:
+            def deliver():
+                n = len(self.ops)
+                self.recv(inflight)
+                while self.flavour == "sync" and self.gw.tasks.queue:
+                    self.pump()
+                del self.ops[n:]          # replay re-creates these steps from the stop_restart op itself
+            self.tr.on_disconnect = deliver
+        self.ops.append(["stop_restart", inflight])
         try:
             if self.flavour == "async":
                 self._loop().run_until_complete(self.gw.stop())
@@ -518,13 +535,13 @@ class Driver:
 
     def trace(self, meta=None):
         return {"cfg": {"ver": self.version, "flavour": self.flavour, "raising_cb": self.raising_cb,
-                        "persist": bool(self.pfile), "mqtt": self.mqtt, **(meta or {})}, "ev": self.events, "ops": self.ops}
+                        "persist": bool(self.pfile), "mqtt": self.mqtt, "no_callback": self.no_callback, **(meta or {})}, "ev": self.events, "ops": self.ops}
 
 
 def replay_ops(cfg, ops, persistence_file=None):
     """Re-execute a recorded history against the current tree; returns the new trace."""
     drv = Driver(cfg["ver"], cfg["flavour"], Interner(), persistence_file=persistence_file,
-                 raising_cb=cfg.get("raising_cb", False), mqtt=cfg.get("mqtt", False))
+                 raising_cb=cfg.get("raising_cb", False), mqtt=cfg.get("mqtt", False), no_callback=cfg.get("no_callback", False))
     for op in ops:
         k = op[0]
         if k == "recv":
@@ -542,7 +559,7 @@ def replay_ops(cfg, ops, persistence_file=None):
         elif k == "tick":
             drv.tick()
         elif k == "stop_restart":
-            drv.stop_restart()
+            drv.stop_restart(op[1] if len(op) > 1 else None)
         elif k == "snapshot":
             import tempfile
             drv.snapshot(tempfile.gettempdir())
